@@ -390,11 +390,42 @@ int permutePartitionVertexMaps(NifFile& nif, Rng& rng) {
 	return changed;
 }
 
+NiShape* toStripsSameTriangles(NifFile& nif, NiShape* shape, Rng& rng) {
+	auto& hdr = nif.GetHeader();
+	auto tsd = hdr.GetBlock<NiTriShapeData>(shape->DataRef());
+	auto ts = dynamic_cast<NiTriShape*>(shape);
+	if (!tsd || !ts) return nullptr;
+	std::vector<Triangle> tris;
+	tsd->GetTriangles(tris);
+	auto sd = std::make_unique<NiTriStripsData>();
+	*static_cast<NiTriBasedGeomData*>(sd.get()) = *static_cast<NiTriBasedGeomData*>(tsd);
+	for (auto& t : tris) {
+		std::vector<uint16_t> strip;
+		switch (rng.below(3)) {
+			case 0: strip = {t.p1, t.p2, t.p3}; break;
+			case 1: strip = {t.p1, t.p1, t.p3, t.p2}; break;   // position 1 (odd): emitted as (p[1], p[3], p[2]) = (p1, p2, p3)
+			default: strip = {t.p1, t.p2, t.p3, t.p3}; break;
+		}
+		sd->stripsInfo.points.push_back(strip);
+		uint16_t l = (uint16_t)strip.size();
+		sd->stripsInfo.stripLengths.push_back(l);
+	}
+	auto strips = std::make_unique<NiTriStrips>();
+	*static_cast<NiTriBasedGeom*>(strips.get()) = *static_cast<NiTriBasedGeom*>(ts);
+	NiTriStripsData* sdRaw = sd.get();
+	NiTriStrips* sRaw = strips.get();
+	uint32_t dataId = nif.GetBlockID(tsd), shapeId = nif.GetBlockID(shape);
+	hdr.ReplaceBlock(shapeId, std::move(strips));
+	hdr.ReplaceBlock(dataId, std::move(sd));
+	sRaw->SetGeomData(sdRaw);
+	return sRaw;
+}
+
 void addTexturingProperty(NifFile& nif, NiShape* shape, Rng& rng, const std::vector<std::string>& paths) {
 	auto& hdr = nif.GetHeader();
 	std::string name = shape->name.get();
 	auto tp = std::make_unique<NiTexturingProperty>();
-	tp->textureCount = 10;
+	tp->textureCount = hdr.GetVersion().File() >= V20_2_0_5 ? 12 : 10;   // from 20.2.0.5 on the last two decal slots are only stored when the count exceeds 10 / 11
 	bool* has[10] = {&tp->hasBaseTex, &tp->hasDarkTex, &tp->hasDetailTex, &tp->hasGlossTex, &tp->hasGlowTex, &tp->hasBumpTex, &tp->hasDecalTex0, &tp->hasDecalTex1, &tp->hasDecalTex2, &tp->hasDecalTex3};
 	TexDesc* td[10] = {&tp->baseTex, &tp->darkTex, &tp->detailTex, &tp->glossTex, &tp->glowTex, &tp->bumpTex, &tp->decalTex0, &tp->decalTex1, &tp->decalTex2, &tp->decalTex3};
 	uint32_t mask = 1 + rng.below(1023);
